@@ -31,6 +31,16 @@ impl Scalar for f64 {
         self
     }
 }
+impl Scalar for f32 {
+    #[inline]
+    fn of(x: f64) -> f32 {
+        x as f32
+    }
+    #[inline]
+    fn f(self) -> f64 {
+        self as f64
+    }
+}
 
 // No `Send` bound on purpose: a change that puts an `Rc` (a buffer shared between a view and its clones)
 // into a view must still compile against the harness, because detecting it is C17's job.
